@@ -3,13 +3,19 @@
 //! violation with a replay instead of a bare child death (which would be a machinery failure).
 
 use std::cell::UnsafeCell;
-use std::sync::atomic::{AtomicUsize, Ordering};
+use std::sync::atomic::{AtomicU64, AtomicUsize, Ordering};
 
 const CAP: usize = 1024;
 struct Buf(UnsafeCell<[u8; CAP]>);
 unsafe impl Sync for Buf {}
 static CUR: Buf = Buf(UnsafeCell::new([0; CAP]));
 static CUR_LEN: AtomicUsize = AtomicUsize::new(0);
+/// start of the current edge (ms since process start), for the watchdog
+static CUR_START: AtomicU64 = AtomicU64::new(0);
+/// a single edge may not run longer than this: a broken subject can turn an iterator into an endless loop
+pub const EDGE_LIMIT_MS: u64 = 60_000;
+
+fn now_ms() -> u64 { static T0: std::sync::OnceLock<std::time::Instant> = std::sync::OnceLock::new(); T0.get_or_init(std::time::Instant::now).elapsed().as_millis() as u64 }
 
 /// remember what is being executed (called before every edge)
 pub fn set_current(s: &str) {
@@ -17,6 +23,7 @@ pub fn set_current(s: &str) {
     let n = b.len().min(CAP);
     CUR_LEN.store(0, Ordering::SeqCst);
     unsafe { (&mut *CUR.0.get())[..n].copy_from_slice(&b[..n]); }
+    CUR_START.store(now_ms(), Ordering::SeqCst);
     CUR_LEN.store(n, Ordering::SeqCst);
 }
 pub fn clear_current() { CUR_LEN.store(0, Ordering::SeqCst); }
@@ -36,6 +43,21 @@ extern "C" fn on_signal(sig: libc::c_int) {
 }
 
 pub fn install() {
+    let _ = now_ms();
+    // watchdog: an edge that does not come back is reported like a crash (exit 77 with a marker naming the edge)
+    std::thread::spawn(|| loop {
+        std::thread::sleep(std::time::Duration::from_millis(500));
+        let n = CUR_LEN.load(Ordering::SeqCst);
+        if n > 0 && now_ms().saturating_sub(CUR_START.load(Ordering::SeqCst)) > EDGE_LIMIT_MS {
+            unsafe {
+                let head = b"\nCRASH TIMEOUT ";
+                libc::write(2, head.as_ptr() as *const libc::c_void, head.len());
+                libc::write(2, (*CUR.0.get()).as_ptr() as *const libc::c_void, n);
+                libc::write(2, b"\n".as_ptr() as *const libc::c_void, 1);
+                libc::_exit(77);
+            }
+        }
+    });
     unsafe {
         // alternate stack so that a stack overflow can still be reported
         let sz = 1 << 16;
